@@ -1,4 +1,10 @@
 
+(** val negb : bool -> bool **)
+
+let negb = function
+| true -> false
+| false -> true
+
 type nat =
 | O
 | S of nat
@@ -284,10 +290,10 @@ module Coq_Pos =
 
   (** val iter_op : ('a1 -> 'a1 -> 'a1) -> positive -> 'a1 -> 'a1 **)
 
-  let rec iter_op op0 p a =
+  let rec iter_op op p a =
     match p with
-    | XI p0 -> op0 a (iter_op op0 p0 (op0 a a))
-    | XO p0 -> iter_op op0 p0 (op0 a a)
+    | XI p0 -> op a (iter_op op p0 (op a a))
+    | XO p0 -> iter_op op p0 (op a a)
     | XH -> a
 
   (** val to_nat : positive -> nat **)
@@ -497,6 +503,20 @@ module Z =
   | Zpos x0 -> Zneg x0
   | Zneg x0 -> Zpos x0
 
+  (** val eqb : z -> z -> bool **)
+
+  let eqb x y =
+    match x with
+    | Z0 -> (match y with
+             | Z0 -> true
+             | _ -> false)
+    | Zpos p -> (match y with
+                 | Zpos q -> Coq_Pos.eqb p q
+                 | _ -> false)
+    | Zneg p -> (match y with
+                 | Zneg q -> Coq_Pos.eqb p q
+                 | _ -> false)
+
   (** val to_nat : z -> nat **)
 
   let to_nat = function
@@ -532,6 +552,24 @@ let rec nth_error l = function
            | [] -> None
            | _ :: l0 -> nth_error l0 n1)
 
+(** val rev : 'a1 list -> 'a1 list **)
+
+let rec rev = function
+| [] -> []
+| x :: l' -> app (rev l') (x :: [])
+
+(** val map : ('a1 -> 'a2) -> 'a1 list -> 'a2 list **)
+
+let rec map f = function
+| [] -> []
+| a :: t -> (f a) :: (map f t)
+
+(** val flat_map : ('a1 -> 'a2 list) -> 'a1 list -> 'a2 list **)
+
+let rec flat_map f = function
+| [] -> []
+| x :: t -> app (f x) (flat_map f t)
+
 (** val fold_left : ('a1 -> 'a2 -> 'a1) -> 'a2 list -> 'a1 -> 'a1 **)
 
 let rec fold_left f l a0 =
@@ -539,11 +577,62 @@ let rec fold_left f l a0 =
   | [] -> a0
   | b :: t -> fold_left f t (f a0 b)
 
+(** val existsb : ('a1 -> bool) -> 'a1 list -> bool **)
+
+let rec existsb f = function
+| [] -> false
+| a :: l0 -> (||) (f a) (existsb f l0)
+
 (** val repeat : 'a1 -> nat -> 'a1 list **)
 
 let rec repeat x = function
 | O -> []
 | S k -> x :: (repeat x k)
+
+(** val split_at : z -> z list -> z list -> z list list * z list **)
+
+let rec split_at d bs cur =
+  match bs with
+  | [] -> ([], (rev cur))
+  | b :: r ->
+    if Z.eqb b d
+    then let (rs, t) = split_at d r [] in (((rev cur) :: rs), t)
+    else split_at d r (b :: cur)
+
+(** val strip_cr : z list -> z list **)
+
+let strip_cr l =
+  match rev l with
+  | [] -> l
+  | z0 :: r ->
+    (match z0 with
+     | Zpos p ->
+       (match p with
+        | XI p0 ->
+          (match p0 with
+           | XO p1 ->
+             (match p1 with
+              | XI p2 -> (match p2 with
+                          | XH -> rev r
+                          | _ -> l)
+              | _ -> l)
+           | _ -> l)
+        | _ -> l)
+     | _ -> l)
+
+(** val records : z -> bool -> z list -> z list list **)
+
+let records d cr bs =
+  let (rs, t) = split_at d bs [] in
+  app (map (if cr then strip_cr else (fun x -> x)) rs)
+    (match t with
+     | [] -> []
+     | _ :: _ -> t :: [])
+
+(** val unrecords : z -> z list list -> z list **)
+
+let unrecords d rs =
+  flat_map (fun r -> app r (d :: [])) rs
 
 (** val invalid_key : n **)
 
@@ -692,26 +781,6 @@ let ideal hash mask1 k =
 
 let next mask1 i =
   N.coq_land (N.add i (Npos XH)) mask1
-
-(** val find_loop : nat -> 'a1 entry list -> n -> n -> n -> n option res **)
-
-let rec find_loop fuel cs mask1 i k =
-  match fuel with
-  | O -> ErrFuel
-  | S f ->
-    (match get cs i with
-     | Some e ->
-       if N.eqb (ekey e) k
-       then Ok (Some i)
-       else if N.eqb (ekey e) invalid
-            then Ok None
-            else find_loop f cs mask1 (next mask1 i) k
-     | None -> ErrBounds)
-
-(** val find : (n -> n) -> 'a1 ptable -> n -> n option res **)
-
-let find hash t k =
-  find_loop (length t.cells) t.cells t.mask0 (ideal hash t.mask0 k) k
 
 (** val foi_loop :
     nat -> 'a1 ptable -> n -> 'a1 entry -> ((bool * n) * 'a1 ptable) res **)
@@ -865,84 +934,145 @@ let auto_find_or_insert v0 hash a e =
       let (found, pos) = p in
       Ok ((found, pos), { backend = t'; threshold = a1.threshold })))
 
-(** val auto_insert :
-    'a1 -> (n -> n) -> 'a1 auto -> 'a1 entry -> (n * 'a1 auto) res **)
+(** val dedupe_has_reserved_guard : bool **)
 
-let auto_insert v0 hash a e =
-  let t = a.backend in
-  let a0 = { backend = { cells = t.cells; nbuckets = t.nbuckets; mask0 =
-    t.mask0; entries = (N.add t.entries (Npos XH)) }; threshold =
-    a.threshold }
-  in
-  bind (double_if_needed v0 hash a0) (fun a1 ->
-    let t1 = a1.backend in
-    bind (unchecked_insert hash t1.cells t1.mask0 e) (fun r -> Ok ((snd r),
-      { backend = { cells = (fst r); nbuckets = t1.nbuckets; mask0 =
-      t1.mask0; entries = t1.entries }; threshold = a1.threshold })))
+let dedupe_has_reserved_guard =
+  true
 
-(** val auto_find : (n -> n) -> 'a1 auto -> n -> n option res **)
+(** val dedupe_reserved_key : n **)
 
-let auto_find hash a k =
-  find hash a.backend k
+let dedupe_reserved_key =
+  N0
 
-(** val value_at : 'a1 auto -> n -> 'a1 option **)
+type dtable = unit auto
 
-let value_at a i =
-  match get a.backend.cells i with
-  | Some e -> Some (snd e)
-  | None -> None
+(** val idhash : n -> n **)
 
-(** val auto_update :
-    (n -> n) -> 'a1 auto -> n -> 'a1 -> (n option * 'a1 auto) res **)
+let idhash x =
+  x
 
-let auto_update hash a k v =
-  bind (auto_find hash a k) (fun r ->
-    match r with
-    | Some i ->
-      let t = a.backend in
-      Ok ((Some i), { backend = { cells = (upd t.cells i (k, v)); nbuckets =
-      t.nbuckets; mask0 = t.mask0; entries = t.entries }; threshold =
-      a.threshold })
-    | None -> Ok (None, a))
+type dstate = { d_tab : dtable; d_seen_zero : bool }
 
-type 'v op =
-| OpFindOrInsert of n * 'v
-| OpInsert of n * 'v
-| OpFind of n
-| OpUpdate of n * 'v
+(** val dedupe_init : dstate **)
 
-type 'v answer =
-| AFoundOrInserted of bool * n * 'v option
-| AInserted of n
-| AFind of (n * 'v option) option
-| AUpdate of n option
+let dedupe_init =
+  { d_tab = (auto_init ()); d_seen_zero = false }
 
-(** val step :
-    'a1 -> (n -> n) -> 'a1 auto -> 'a1 op -> ('a1 answer * 'a1 auto) res **)
+(** val dedupe_pass : dstate -> n -> (bool * dstate) res **)
 
-let step v0 hash a = function
-| OpFindOrInsert (k, v) ->
-  bind (auto_find_or_insert v0 hash a (k, v)) (fun r ->
-    let (p, a') = r in
-    let (found, pos) = p in
-    Ok ((AFoundOrInserted (found, pos, (value_at a' pos))), a'))
-| OpInsert (k, v) ->
-  bind (auto_insert v0 hash a (k, v)) (fun r -> Ok ((AInserted (fst r)),
-    (snd r)))
-| OpFind k ->
-  bind (auto_find hash a k) (fun r -> Ok ((AFind
-    (match r with
-     | Some i -> Some (i, (value_at a i))
-     | None -> None)), a))
-| OpUpdate (k, v) ->
-  bind (auto_update hash a k v) (fun r -> Ok ((AUpdate (fst r)), (snd r)))
+let dedupe_pass s k =
+  if (&&) dedupe_has_reserved_guard (N.eqb k dedupe_reserved_key)
+  then Ok ((negb s.d_seen_zero), { d_tab = s.d_tab; d_seen_zero = true })
+  else bind (auto_find_or_insert () idhash s.d_tab (k, ())) (fun r ->
+         let (p, t') = r in
+         let (found, _) = p in
+         Ok ((negb found), { d_tab = t'; d_seen_zero = s.d_seen_zero }))
 
-(** val run :
-    'a1 -> (n -> n) -> 'a1 auto -> 'a1 op list -> ('a1 answer list * 'a1
-    auto) res **)
+(** val filter_loop : ('a1 -> n) -> dstate -> 'a1 list -> 'a1 list res **)
 
-let rec run v0 hash a = function
-| [] -> Ok ([], a)
-| o :: r ->
-  bind (step v0 hash a o) (fun x ->
-    bind (run v0 hash (snd x) r) (fun y -> Ok (((fst x) :: (fst y)), (snd y))))
+let rec filter_loop key s = function
+| [] -> Ok []
+| l :: r ->
+  bind (dedupe_pass s (key l)) (fun x ->
+    bind (filter_loop key (snd x) r) (fun out -> Ok
+      (if fst x then l :: out else out)))
+
+(** val dedupe : ('a1 -> n) -> 'a1 list -> 'a1 list res **)
+
+let dedupe key ls =
+  filter_loop key dedupe_init ls
+
+type pstatus =
+| PDone
+| PUnbalanced
+| PAbort
+
+(** val par_loop :
+    ('a1 -> n) -> ('a1 -> n) -> dstate -> dstate -> 'a1 list -> 'a1 list ->
+    (pstatus * ('a1 * 'a1) list) res **)
+
+let rec par_loop key key1 s0 s1 in0 in1 =
+  match in0 with
+  | [] -> Ok ((match in1 with
+               | [] -> PDone
+               | _ :: _ -> PUnbalanced), [])
+  | l0 :: r0 ->
+    (match in1 with
+     | [] -> Ok (PAbort, [])
+     | l1 :: r1 ->
+       bind (dedupe_pass s0 (key l0)) (fun x0 ->
+         if fst x0
+         then bind (dedupe_pass s1 (key1 l1)) (fun x1 ->
+                bind (par_loop key key1 (snd x0) (snd x1) r0 r1) (fun rest ->
+                  Ok ((fst rest),
+                  (if fst x1 then (l0, l1) :: (snd rest) else snd rest))))
+         else par_loop key key1 (snd x0) s1 r0 r1))
+
+(** val dedupe_par :
+    ('a1 -> n) -> ('a1 -> n) -> 'a1 list -> 'a1 list ->
+    (pstatus * ('a1 * 'a1) list) res **)
+
+let dedupe_par key key1 in0 in1 =
+  par_loop key key1 dedupe_init dedupe_init in0 in1
+
+(** val mem : n -> n list -> bool **)
+
+let mem k seen =
+  existsb (N.eqb k) seen
+
+(** val first_occ_from : ('a1 -> n) -> n list -> 'a1 list -> 'a1 list **)
+
+let rec first_occ_from key seen = function
+| [] -> []
+| l :: r ->
+  if mem (key l) seen
+  then first_occ_from key seen r
+  else l :: (first_occ_from key ((key l) :: seen) r)
+
+(** val first_occ : ('a1 -> n) -> 'a1 list -> 'a1 list **)
+
+let first_occ key ls =
+  first_occ_from key [] ls
+
+(** val par_spec_from :
+    ('a1 -> n) -> ('a1 -> n) -> n list -> n list -> ('a1 * 'a1) list ->
+    ('a1 * 'a1) list **)
+
+let rec par_spec_from key key1 seen0 seen1 = function
+| [] -> []
+| p :: r ->
+  let (l0, l1) = p in
+  if mem (key l0) seen0
+  then par_spec_from key key1 seen0 seen1 r
+  else if mem (key1 l1) seen1
+       then par_spec_from key key1 ((key l0) :: seen0) seen1 r
+       else (l0,
+              l1) :: (par_spec_from key key1 ((key l0) :: seen0)
+                       ((key1 l1) :: seen1) r)
+
+(** val par_spec :
+    ('a1 -> n) -> ('a1 -> n) -> ('a1 * 'a1) list -> ('a1 * 'a1) list **)
+
+let par_spec key key1 ps =
+  par_spec_from key key1 [] [] ps
+
+(** val newline : z **)
+
+let newline =
+  Zpos (XO (XI (XO XH)))
+
+(** val dedupe_tool : (z list -> n) -> z list -> z list res **)
+
+let dedupe_tool key input =
+  bind (dedupe key (records newline true input)) (fun out -> Ok
+    (unrecords newline out))
+
+(** val dedupe_par_tool :
+    (z list -> n) -> z list -> z list -> ((pstatus * z list) * z list) res **)
+
+let dedupe_par_tool key input0 input1 =
+  bind
+    (dedupe_par key key (records newline true input0)
+      (records newline true input1)) (fun r -> Ok (((fst r),
+    (unrecords newline (map fst (snd r)))),
+    (unrecords newline (map snd (snd r)))))
